@@ -277,6 +277,8 @@ def eval_solid(ctx, case):
     d = gen.diameter(v)
     try:
         p = coxeter.shapes.ConvexPolyhedron(v)
+        import history
+        p, _how = history.maybe_via_history(p, history.rng_for(v), 0.33, ctx)     # see harness/history.py
     except Exception as e:
         ctx.fail("ConvexPolyhedron.__init__:raises", "constructor raised %s on a set in convex position" % exc_kind(e),
                  case, repr(e))
@@ -417,6 +419,7 @@ def eval_solid(ctx, case):
     for r in case["radii"]:
         try:
             s = coxeter.shapes.ConvexSpheropolyhedron(v, r)
+            s, _how = history.maybe_via_history(s, history.rng_for([v.tolist(), r]), 0.4, ctx)
             with np.errstate(all="ignore"):
                 so = {"V": float(s.volume), "S": float(s.surface_area), "M": float(s.mean_curvature),
                       "iq": float(s.iq)}
@@ -463,10 +466,17 @@ def eval_solid(ctx, case):
             ctx.fail("ConvexSpheropolyhedron:steiner-in-own-core", "rounded measures are not the Steiner polynomials "
                      "of the core's own V, S, M", case, [r, so, stated])
         if r == 0:
-            if not (ctx.close_enough(so["V"], obs["V"], d ** 3, tol=1e-13)
-                    and ctx.close_enough(so["S"], obs["S"], d ** 2, tol=1e-13)
-                    and ctx.close_enough(so["M"], obs["M"], d, tol=1e-13)
-                    and ctx.close_enough(so["iq"], obs["iq"], 1.0, tol=1e-13)):
+            # against the object's OWN core (when the object was reached through a history its vertices differ from the
+            # directly built core `p` by a few roundings, which the 1e-13 comparison would see)
+            core = s.polyhedron
+            oc = {"V": float(core.volume), "S": float(core.surface_area), "M": float(core.mean_curvature),
+                  "iq": float(core.iq)}
+            if not (ctx.close_enough(so["V"], oc["V"], d ** 3, tol=1e-13)
+                    and ctx.close_enough(so["S"], oc["S"], d ** 2, tol=1e-13)
+                    and ctx.close_enough(so["M"], oc["M"], d, tol=1e-13)
+                    and ctx.close_enough(so["iq"], oc["iq"], 1.0, tol=1e-13)
+                    and ctx.close_enough(so["V"], obs["V"], Ls ** 3) and ctx.close_enough(so["S"], obs["S"], Ls ** 2)
+                    and ctx.close_enough(so["M"], obs["M"], Ls)):
                 ctx.fail("ConvexSpheropolyhedron:radius-zero", "with r = 0 the rounded solid's measures differ from "
                          "the core's", case, [so, obs])
         if cf:
@@ -494,6 +504,9 @@ def eval_polygon(ctx, case):
         for forced_cw in ([False, True] if case.get("also_cw") else [False]):
             try:
                 sp = coxeter.shapes.ConvexSpheropolygon(inp, r, normal=normal)
+                if not forced_cw:
+                    import history
+                    sp, _how = history.maybe_via_history(sp, history.rng_for([inp.tolist(), r]), 0.4, ctx)
                 if forced_cw:
                     sp.polygon._vertices = sp.polygon._vertices[::-1].copy()
                 core_signed = float(sp.polygon.signed_area)
